@@ -16,6 +16,7 @@ import SharkVerif.Lemmas.Dataset
 import SharkVerif.Model.CV
 import SharkVerif.Props.C03
 import SharkVerif.Lemmas.Regroup
+import SharkVerif.Lemmas.View
 namespace SharkVerif.C12
 open SharkVerif.CheckedNat SharkVerif.Gen.BatchArith SharkVerif.BatchArith SharkVerif.Dataset SharkVerif.CV
 
@@ -307,6 +308,54 @@ theorem fold_elements_partition (set : LabeledData ι κ) (k : Nat) (assign : Li
     rw [splitBySizes_lengths _ _ (Nat.le_of_eq hs1), splitBySizes_lengths _ _ (Nat.le_of_eq hs2)]
   · show List.zip (splitBySizes _ sizes).flatten (splitBySizes _ sizes).flatten = ordered
     rw [splitBySizes_flatten _ _ hs1, splitBySizes_flatten _ _ hs2, zip_map_fst_snd]
+
+/-- what `subBatch(setView, positions)` collects: the (input, label) pairs at those positions -/
+theorem pick_eq (set : LabeledData ι κ) (hw : C03.WF set) (pos : List Nat) (els : List (ι × κ))
+    (h : pick set pos = .ok els) : els.map some = pos.map (fun i => (C03.pairs set)[i]?) := by
+  simp only [pick, View.subBatch, bind_ok, ofOpt_ok] at h
+  obtain ⟨s, hs, hels⟩ := h
+  have h1 := (subset_elements _ _ _ hs).1
+  have h2 := mapM_id_some _ _ hels
+  rw [view_elements set hw] at h1
+  rw [← h2, h1, ← C03.flat_eq_pairs set hw]
+  apply List.map_congr_left
+  intro i _
+  cases hx : set.flat[i]? <;> simp [hx]
+
+/-- **createCVIndexed** (hence createCVIID for whatever the RNG draws): on a well-formed dataset, with the
+source returning no batch for zero elements (`hz`), the reorganised dataset is well-formed, its
+(input, label) sequence is the original one grouped by requested fold (fold 0's elements first, … each group in
+original order) and therefore a permutation of the original pairs — every element exactly once, with its label,
+in the fold requested for it -/
+theorem createCVIndexed_partition (set : LabeledData ι κ) (hw : C03.WF set) (k : Nat) (indices : List Nat) (bs : Nat)
+    (hbs : 0 < bs) (hz : optimalBatchSizes 0 bs = some []) (f : CVFolds ι κ)
+    (h : createCVIndexed set k indices bs = .ok f) :
+    C03.WF f.dataset ∧
+    C03.pairs f.dataset = (List.range k).flatMap (fun p =>
+      ((List.zip (C03.pairs set) indices).filter (·.2 = p)).map (·.1)) ∧
+    (C03.pairs f.dataset).Perm (C03.pairs set) := by
+  simp only [createCVIndexed, bind_ok, require_ok, decide_eq_true_eq] at h
+  obtain ⟨_, hn, hr⟩ := h
+  obtain ⟨els, hpick, hlen, hrest⟩ := fold_elements_partition set k _ bs hbs hz f hr
+  have hfst : (List.zip (List.range indices.length) indices).map (·.1) = List.range indices.length := by
+    apply List.map_fst_zip; simp
+  have hsnd : (List.zip (List.range indices.length) indices).map (·.2) = indices := by
+    apply List.map_snd_zip; simp
+  have hpl : (C03.pairs set).length = indices.length := by rw [C03.pairs_length set hw, hn]
+  have hels : els = C03.pairs set := by
+    have := pick_eq set hw _ els hpick
+    rw [hfst, ← hpl] at this
+    have h3 : (List.range (C03.pairs set).length).map (fun i => (C03.pairs set)[i]?) = (C03.pairs set).map some := by
+      apply List.ext_getElem?
+      intro j
+      by_cases hj : j < (C03.pairs set).length
+      · simp [hj]
+      · simp [hj]
+    rw [h3] at this
+    have h4 := congrArg (List.filterMap id) this
+    simpa [List.filterMap_map] using h4
+  simp only [hsnd, hels] at hrest
+  exact ⟨hrest.1, hrest.2.1, hrest.2.1 ▸ hrest.2.2⟩
 
 /-! ## E. elements of the folds -/
 variable {ε : Type}
